@@ -184,6 +184,29 @@ SumSeq(vs) == IF Len(vs) = 0 THEN 0 ELSE Head(vs) + SumSeq(Tail(vs))
 NodeCount(e) == 1 + SumSeq([i \in 1..Len(e.args) |-> NodeCount(e.args[i])])
 
 (***************************************************************************)
+(* The leaves declared by the fixed module skeleton that the harness       *)
+(* renders around the generated expressions (harness/typing_render.py;     *)
+(* TypingCheck verifies that the renderer declares exactly these).         *)
+(***************************************************************************)
+Leaves == <<
+  [name |-> "a",   decl |-> "UInt",   en |-> ""],
+  [name |-> "b",   decl |-> "Int",    en |-> ""],
+  [name |-> "c",   decl |-> "Bcd",    en |-> ""],
+  [name |-> "f",   decl |-> "Flag",   en |-> ""],
+  [name |-> "g",   decl |-> "Flag",   en |-> ""],
+  [name |-> "e",   decl |-> "Enum",   en |-> "Ea"],
+  [name |-> "h",   decl |-> "Enum",   en |-> "Eb"],
+  [name |-> "s",   decl |-> "Struct", en |-> ""],
+  [name |-> "r",   decl |-> "Array",  en |-> ""],
+  [name |-> "s.x", decl |-> "UInt",   en |-> ""],
+  [name |-> "vi",  decl |-> "VInt",   en |-> ""],
+  [name |-> "vb",  decl |-> "VBool",  en |-> ""],
+  [name |-> "ve",  decl |-> "VEnum",  en |-> "Ea"],
+  [name |-> "p",   decl |-> "PUInt",  en |-> ""],
+  [name |-> "pj",  decl |-> "PInt",   en |-> ""],
+  [name |-> "q",   decl |-> "PEnum",  en |-> "Ea"] >>
+
+(***************************************************************************)
 (* Programs.  A C13 program is a fixed module skeleton (rendered by the    *)
 (* harness from `leaves') with one expression per SITE.  The sites are the *)
 (* position classes of the property statement:                             *)
